@@ -45,7 +45,7 @@ DEPENDS = [
     (("finam.data.tools.info.Info.",), ("C05", "C06", "C07", "C15", "C17", "C18")),
     (("StructuredGrid.compatible_with", "StructuredGrid.__eq__", "grid_spec.NoGrid."), ("C07", "C15")),
     (("finam.data.tools.mask.masks_", "finam.data.tools.mask.mask_specified"), ("C07", "C18")),
-    (("finam.data.tools.units.",), ("C07", "C08", "C17")),
+    (("finam.data.tools.units.", "finam.data.tools.core.prepare", "finam.data.tools.core._mask_for"), ("C07", "C08", "C17", "C18")),
     (("finam.sdk.output.Output.", "finam.sdk.output.CallbackOutput."), ("C01", "C03", "C05", "C06", "C08", "C09", "C10", "C20")),
     # the buffering adapters inherit the spill helpers of Output
     (("finam.sdk.output.Output._pack", "finam.sdk.output.Output._unpack", "finam.sdk.output.Output._check_", "finam.sdk.output.Output._clear_data",
